@@ -15,9 +15,13 @@
 
     C14_building assembles the carrier statements into the building totals for the regulatory factor sets.
 
-    PARTIAL: the load matching mode (the factor (32) is a rational function of production / use) is decided by the
-    differential run only. *)
-From Cteepbd Require Import Model.Factors Proofs.StepFacts Proofs.ColFacts Proofs.DataEquiv Proofs.ClosedForm Proofs.RerFacts Proofs.PvFacts Proofs.PvBuilding.
+    Load matching: the used production g(u, p) = f(p/u) min(u, p) is non-decreasing and 1-Lipschitz in p
+    (C14_load_matching_used_production), which gives the same carrier statements when electricity has no cogeneration
+    (C14_load_matching_without_cogeneration).
+
+    PARTIAL: load matching together with cogeneration (the factor depends on the total production while the priority
+    allocation does not) is decided by the differential run only. *)
+From Cteepbd Require Import Model.Factors Proofs.StepFacts Proofs.ColFacts Proofs.DataEquiv Proofs.ClosedForm Proofs.RerFacts Proofs.PvFacts Proofs.PvBuilding Proofs.LmMono.
 Open Scope Qc_scope.
 
 Section Statement.
@@ -82,6 +86,37 @@ Theorem C14_building : forall (fs0 : list Factor) (c : Components) (i : Z) (dv :
   /\ t_del_grid ep' <= t_del_grid ep.
 Proof. intros. eapply pv_monotone_building; eassumption. Qed.
 
+(** ** Load matching *)
+(** the production used in a step with load matching, g(u, p) = f(p/u) * min(u, p): for a fixed use it grows with the
+    production, and never faster than the production (so the exported part grows too) *)
+Theorem C14_load_matching_used_production : forall u p p' : Qc,
+  0 < u -> 0 < p -> p <= p' -> gl u p <= gl u p' /\ gl u p' - gl u p <= p' - p.
+Proof. exact gl_mono. Qed.
+
+Theorem C14_load_matching_factor_is_g : forall u p : Qc, 0 < u -> 0 < p ->
+  (p / u + 1 / (p / u) - 1) / (p / u + 1 / (p / u)) * qmin u p = gl u p.
+Proof. exact fmatch_times_min. Qed.
+
+(** with load matching, when no cogeneration is declared for electricity: same statements for the electricity carrier *)
+Theorem C14_load_matching_without_cogeneration :
+  forall (data : list Energy) (i : Z) (dv : list Qc) (cm : str),
+  let x := mk_ctx ELECTRICIDAD true data in
+  let x' := mk_ctx ELECTRICIDAD true (data ++ [EProd i EL_INSITU dv cm]) in
+  nonneg_data data -> dom_data data -> Forall (fun v => 0 <= v) dv -> Forall zg dv ->
+  filter (has_carrier ELECTRICIDAD) data <> nil ->
+  existsb (is_prod_src EL_COGEN) (filter (has_carrier ELECTRICIDAD) data) = false ->
+  forall (fs : list Factor) (g phi : RNC) (k : Qc),
+  regular fs ELECTRICIDAD (cx_srcs x) g (fsrc_reg phi) -> regular fs ELECTRICIDAD (cx_srcs x') g (fsrc_reg phi) ->
+  rnc_nonneg g -> ren g <= 1 -> rnc_nonneg phi -> 0 <= k <= 1 ->
+  exists p p', weighted_parts fs x = Ok p /\ weighted_parts fs x' = Ok p'
+    /\ nren (we_a (we_of_parts k p')) <= nren (we_a (we_of_parts k p))
+    /\ co2 (we_a (we_of_parts k p')) <= co2 (we_a (we_of_parts k p))
+    /\ nren (we_b (we_of_parts k p')) <= nren (we_b (we_of_parts k p))
+    /\ co2 (we_b (we_of_parts k p')) <= co2 (we_b (we_of_parts k p))
+    /\ ren (we_a (we_of_parts k p)) <= ren (we_a (we_of_parts k p'))
+    /\ a_del_grid x' <= a_del_grid x.
+Proof. intros. eapply pv_monotone_carrier_lm; eassumption. Qed.
+
 (** the three regimes of a time step *)
 Theorem C14_step_both_sources : forall c d, col_ok c -> el_col c -> 0 <= d -> zg (c_pv c) -> zg (c_chp c) ->
   s_del_grid (sr true (bump d c)) <= s_del_grid (sr true c) /\ s_exp (sr true c) <= s_exp (sr true (bump d c))
@@ -128,6 +163,9 @@ Print Assumptions C14_grid_delivered_never_grows.
 Print Assumptions C14_exported_never_shrinks.
 Print Assumptions C14_nren_co2_never_grow.
 Print Assumptions C14_building.
+Print Assumptions C14_load_matching_used_production.
+Print Assumptions C14_load_matching_factor_is_g.
+Print Assumptions C14_load_matching_without_cogeneration.
 Print Assumptions C14_step_both_sources.
 Print Assumptions C14_ren_never_shrinks_without_cogeneration.
 Print Assumptions C14_ratio.
